@@ -48,7 +48,7 @@ static int intact (void) {
 	for (i = 0; i < nobjs; i++) {
 		Obj *o = objs[i];
 		if (o->magic != shadow[i].magic || o->k != shadow[i].k || o->id != shadow[i].id || o->kind != shadow[i].kind) return 0;
-		if (!nf && o->destroyed) return 0;
+		if (o->destroyed && (!nf || (nf == 2 && o->kind == 'V') || (nf == 3 && o->kind == 'K'))) return 0;
 	}
 	return 1;
 }
@@ -106,7 +106,8 @@ int main (int argc, char **argv) {
 		}
 		else if (!strcmp (op, "new")) {
 			ty = a; nf = b; wd = c;
-			if (nf) tree = p_tree_new_full ((PTreeType) ty, cmp_data, wd ? &cookie : NULL, kdestroy, vdestroy);
+			/* nf: 0 no notifiers, 1 both, 2 key only, 3 value only */
+			if (nf) tree = p_tree_new_full ((PTreeType) ty, cmp_data, wd ? &cookie : NULL, nf == 3 ? NULL : kdestroy, nf == 2 ? NULL : vdestroy);
 			else if (wd) tree = p_tree_new_with_data ((PTreeType) ty, cmp_data, &cookie);
 			else tree = p_tree_new ((PTreeType) ty, cmp_plain);
 			if (!tree) vt_die ("p_tree_new failed");
